@@ -1107,6 +1107,24 @@ class AlterCallableObject(
         if not node:
             return None
 
+        code = getattr(node, 'code', None)
+        if (
+            not node.commands
+            and getattr(node, 'nativecode', None) is None
+            and not (
+                code is not None
+                and (
+                    code.code
+                    or code.nativecode
+                    or code.from_function
+                    or code.from_expr
+                )
+            )
+        ):
+            # Nothing is left to print, e.g. when only the fully-qualified
+            # name changed because a parameter type was renamed.
+            return None
+
         scls = self.get_object(schema, context)
         node.params = scls.get_params(schema).get_ast(schema)
 
